@@ -1,5 +1,5 @@
 """C12 - balanced 2-way partitioning (CBLDM) obeys the cardinality bound and is optimal under it."""
-from .. import core, scope, drive, gen
+from .. import core, scope, drive, gen, models
 from .common import *
 
 
@@ -18,6 +18,10 @@ def ctx_of(fl):
 
 def run(ck):
     q = ck.quick()
+    # L1: the CBLDM machine (explicit-stack transcription of the recursion) is optimal under every bound and conserves items at every call;
+    # its terminal states are replayed into the real code (identical partition and number of recursive calls, else DRIFT)
+    models.cbldm_mc(ck, 6 if q else 7, 4, [1, 2, 3, 7], False, ["Conservation", "ResultValid", "Optimal"])
+    models.cbldm_replay(ck, 6 if q else 7, 4, [1, 2, 7])
     P = [g for g in (scope.p_scope(ck, 7, 5, 2) if q else scope.p_scope(ck, 9, 5, 2)) if g["k"] == 2]
     ck.exhaustive = True
     groups = []
